@@ -250,6 +250,9 @@ func (zeroReader) Read(p []byte) (int, error) {
 // every regular root-level candidate (what may legitimately end up as the installed artifact).
 func buildArchive(id string, sc *Sc, root string) ([]byte, []string, error) {
 	if sc.Form == "garbage" {
+		if sc.AltPayload {
+			return []byte("THIS is not a gzip stream, it only pretends to be an artifact of " + id), nil, nil
+		}
 		return []byte("this is not a gzip stream, it only pretends to be an artifact of " + id), nil, nil
 	}
 	var buf bytes.Buffer
